@@ -38,7 +38,7 @@ claimed = {
    note=TB+"bufio.Reader.ReadString is modelled over a ghost 'remaining input' string (trusted). Model conformance: bounded only.",
    technique=DED+"; bounded exhaustive stand-in for model conformance", design="3 (C07), 6"),
  "C09": dict(
-   text="Deductive proof of the merge half: Paragraph.Set and Paragraph.Update keep unknown fields in place with their values, append new names once, in order, and preserve the paragraph invariant. The reflective walkers (Marshal/Unmarshal) are outside the verifier and are checked by the bounded stand-in (22 probe struct types, embedded raw paragraphs with renamed fields, 68 k cases), labelled bounded.",
+   text="Deductive proof of the merge half: Paragraph.Set and Paragraph.Update keep unknown fields in place with their values, append new names once, in order, and preserve the paragraph invariant. The reflective walkers (Marshal/Unmarshal) are outside the verifier and are checked by the bounded stand-in (22 probe struct types, embedded raw paragraphs with renamed fields, every embedded case marshalled twice, required fields also through UnpackFromParagraph, 74 k cases), labelled bounded.",
    note=TB+"reflect-based encode/decode: bounded only.",
    technique=DED+"; bounded exhaustive stand-in for the reflective walkers", design="3 (C09), 6"),
  "C10": dict(
@@ -75,8 +75,8 @@ claimed = {
    technique=DED+" with a ghost effect model for the OS", design="3 (C20), 6"),
 }
 BOUNDED = {
- "C08": "1.8 M paragraphs / documents (every line sequence of length 1..4 over six line kinds, now INCLUDING values that start with empty lines; values with '#' lines; mixed Encoder call sequences) through three write-read cycles and the encoder; no blank line inside a paragraph, identity up to one trailing newline, no growth, same number of paragraphs",
- "C19": "121 k build-dependency graphs rendered as .dsc text (alternatives, arch restrictions, substvars, three fields, folded Binary lists, name families whose concatenations collide); permutation, edges respected, error iff cycle, deterministic. Beside it, the two things the order is computed from ARE under contract and discharged on every run (144 obligations): the selection of the first applicable alternative per relation (GetPossibilities, proved for C06) and the Debian layout of the DSC fields (static TAG obligations); OrderDSCForBuild itself and pault.ag/go/topsort are not",
+ "C08": "1.8 M paragraphs / documents (every line sequence of length 1..4 over six line kinds, now INCLUDING values that start with empty lines; values with '#' lines; mixed Encoder call sequences) through three write-read cycles and the encoder; no blank line inside a paragraph, identity up to one trailing newline, no growth, same number of paragraphs. Beside it, the encoder's separator discipline IS under contract and discharged on every run (146 obligations, writer output as ghost state): the encoder's flag never goes back - also after an Encode that failed -, whatever a call writes while the flag is set starts with an empty line, nothing is written while it is clear (Encode, encode, encodeSlice, encodeStruct, NewEncoder, and writeTo's append-only frame); the paragraph text (WriteTo) and its read-back are not",
+ "C19": "121 k build-dependency graphs rendered as .dsc text (alternatives, arch restrictions, substvars, three fields, folded Binary lists, name families whose concatenations collide, multiarch qualifiers); permutation, edges respected, error iff cycle, deterministic. Beside it, the two things the order is computed from ARE under contract and discharged on every run (768 obligations, the dependency parser included by callee closure): the selection of the first applicable alternative per relation (GetPossibilities, proved for C06) and the Debian layout of the DSC fields (static TAG obligations); OrderDSCForBuild itself and pault.ag/go/topsort are not",
 }
 for pid, what in BOUNDED.items():
     claimed[pid] = dict(category="exploration",
